@@ -15,6 +15,10 @@ def opsChannel (op : String) (j : Json) : Option (Except String Json) :=
       match String.ofList kind with
       | "text" => pure (Json.mkObj [("xml", xmlOf (nodeText tag s))])
       | "attr" => pure (Json.mkObj [("xml", xmlOf (nodeAttr tag (getStrD j "attr" "v") s))])
+      | "attrx" =>
+        match insertXpaths refs s with
+        | some v => pure (Json.mkObj [("xml", xmlOf (nodeAttr tag (getStrD j "attr" "v") v)), ("value", jstr v)])
+        | none => pure (Json.mkObj [("err", "pyxform")])
       | "mixed" =>
         let ins := insertOutputValues refs s
         match ins, mixedChannel refs tag s with
